@@ -985,7 +985,7 @@ func (r *transformingReader) Read(data []byte) (n int, err error) {
 		if err := r.prepareMessage(); err != nil {
 			r.err = err
 			r.rw.reportError(err)
-			return 0, io.EOF
+			return 0, err
 		}
 	}
 }
